@@ -45,4 +45,14 @@ Scn(id, fam, tickms, data, plan, start, end, step, lb, qlb) ==
    start |-> start, end |-> end, step |-> step, lb |-> lb, qlb |-> qlb]
 
 Emit(sc) == PrintT(<<"SCN", ToJson(sc)>>)
+
+\* ---- well-mixed hashing (TLC integers are 32 bit: every intermediate value stays below 2^31).
+\* Generators derive the choices that are not dimensions of their state space (which function, operator,
+\* grouping, parameter ... a scenario uses, and whether it is emitted) from a structural hash of the scenario.
+\* Pick makes those choices independent of each other (salt) and of the scenario's dimensions, and lets the
+\* seed move them: with linear hashes some (function, range) or (operator, matching) pairs never occurred.
+MixP == 46337
+Mix1(h) == (((h % MixP) * 31337) + 12345 + ((h \div MixP) % MixP) * 7) % MixP
+Mix(h) == Mix1(Mix1(Mix1(h) + 17) * 3 + 1)
+Pick(h, salt, n) == Mix(h + salt * 1009) % n
 =============================================================================
